@@ -6,6 +6,10 @@ open Mimium.Ffi
 
 def agree (a b c d : String) : String := if a == b && c == d then "agree" else "MISMATCH"
 
+/-- refusals of the hand-written serializers: the model says `ERR`, the code `ERR:<serde message>` -/
+def agreeE (ms ser mb back : String) : String :=
+  if (ms == ser || (ms == "ERR" && ser.startsWith "ERR:")) && mb == back then "agree" else "MISMATCH"
+
 def c20Line (line : String) : String :=
   match line.splitOn "\t" with
   | ["V", txt, ser, back] =>
@@ -34,6 +38,34 @@ def c20Line (line : String) : String :=
     | some bs =>
       let m := match deserializeMacroArgs (σ := String) id bs with
         | some as => showArgs as
+        | none => "ERR"
+      s!"{agree m res "" ""};{if res == "PANIC" then "PROPFAIL:panic" else "ok"}\t-\t{m}"
+  | ["T", txt, ser, back] =>
+    match parseTy txt with
+    | none => "bad-input\t-\t-"
+    | some t =>
+      let (ms, mb) := modelT t
+      s!"{agreeE ms ser mb back};{judgeT t ser back}\t{ms}\t{mb}"
+  | ["W", txt, ser, back] =>
+    match parseRawStr txt with
+    | none => "bad-input\t-\t-"
+    | some v =>
+      let (ms, mb) := modelW v
+      s!"{agreeE ms ser mb back};{judgeW v ser back}\t{ms}\t{mb}"
+  | ["Y", hex, res] =>
+    match bytesOfHex hex with
+    | none => "bad-input\t-\t-"
+    | some bs =>
+      let m := match decodeTyTop bs with
+        | some t => showTy t
+        | none => "ERR"
+      s!"{agree m res "" ""};{if res == "PANIC" then "PROPFAIL:panic" else "ok"}\t-\t{m}"
+  | ["Z", hex, res] =>
+    match bytesOfHex hex with
+    | none => "bad-input\t-\t-"
+    | some bs =>
+      let m := match decodeValTop bs with
+        | some v => showRaw v
         | none => "ERR"
       s!"{agree m res "" ""};{if res == "PANIC" then "PROPFAIL:panic" else "ok"}\t-\t{m}"
   | _ => "skip\t-\t-"
